@@ -980,6 +980,40 @@ impl<'a> TypeMono<'a> {
                     visiting.pop();
                     ok
                 }
+                // an instance that has not been given its own name yet (a field of a
+                // non-generic definition): what the generic definition stores, at these arguments
+                Ty::TApp { ty: base, args } => {
+                    let key = format!("{:?}", ty);
+                    if visiting.contains(&key) {
+                        return true;
+                    }
+                    let ident = TastIdent::new(&base.get_constr_name_unsafe());
+                    let (generics, stored): (Vec<TastIdent>, Vec<Ty>) =
+                        if let Some(def) = self.struct_base.get(&ident) {
+                            (
+                                def.generics.clone(),
+                                def.fields.iter().map(|(_, t)| t.clone()).collect(),
+                            )
+                        } else if let Some(def) = self.enum_base.get(&ident) {
+                            (
+                                def.generics.clone(),
+                                def.variants.iter().flat_map(|(_, ts)| ts.iter().cloned()).collect(),
+                            )
+                        } else {
+                            return true;
+                        };
+                    let subst: Subst = generics
+                        .iter()
+                        .zip(args.iter())
+                        .map(|(param, arg)| (param.0.clone(), arg.clone()))
+                        .collect();
+                    visiting.push(key);
+                    let ok = stored
+                        .iter()
+                        .all(|t| self.in_domain(class, &subst_ty(t, &subst), visiting));
+                    visiting.pop();
+                    ok
+                }
                 _ => true,
             },
         }
